@@ -33,5 +33,6 @@ P_C10_Fold == phase = 1 /\ c.d \in Folds =>
     \A i \in 1..NF(c.sh.vs[1]) : DocStruct(c.d, FALSE, NF(c.sh.vs[1]), 0)[i][1] = "e"
 
 Emit == EmitCases /\ phase = 1 =>
-    PrintT(<<"CASE", ToJson([c |-> c, doc |-> IF c.sh.enum THEN <<"enum", EnumDoc>> ELSE <<"struct", StructDoc>>])>>)
+    PrintT(<<"CASE", ToJson([c |-> c, doc |-> IF c.sh.enum THEN <<"enum", EnumDoc>> ELSE <<"struct", StructDoc>>,
+                             errText |-> [mismatch |-> DocErrText(c.d, "mismatch"), unit |-> DocErrText(c.d, "unit")]])>>)
 =============================================================================
